@@ -200,7 +200,7 @@ func (r *gRun) matchOracles(add func(sig, format string, a ...any)) {
 			continue
 		}
 		if sc.holder < len(r.nodesObj) {
-			if _, unwired := r.nodesObj[sc.holder].(*T14); unwired {
+			if isUnwired(r.nodesObj[sc.holder]) {
 				continue
 			}
 		}
